@@ -217,6 +217,26 @@ where
             spliced2.extend_from_slice(&run.cwp[48..]);
             refuse(h, "other_commitment_point", &spliced2);
         }
+        // the identity as commitment point followed by scalars that prove nothing
+        {
+            let idp = bls12_381_plus::G1Affine::identity().to_compressed();
+            let mut t = idp.to_vec();
+            t.extend_from_slice(&run.cwp[48..]);
+            refuse(h, "identity_point_honest_scalars", &t);
+            for k in [2usize, 3, 5] {
+                let mut t = idp.to_vec();
+                for _ in 0..k {
+                    t.extend_from_slice(&rand_scalar_bytes(h));
+                }
+                refuse(h, "identity_point_junk_scalars", &t);
+            }
+            let g = bls12_381_plus::G1Affine::generator().to_compressed();
+            let mut t = g.to_vec();
+            for _ in 0..(m + 2) {
+                t.extend_from_slice(&rand_scalar_bytes(h));
+            }
+            refuse(h, "generator_point_junk_scalars", &t);
+        }
         // truncated / extended by whole scalars
         if m > 0 {
             let mut t = run.cwp[..run.cwp.len() - 64].to_vec();
